@@ -1,2 +1,5 @@
--- Property files of work group I3 (import UF.Props.Cxx lines go here).
-import UF.Driver.Ops.GroupI3
+-- Property files of work group I3 (top-level composition: the public entry points from raw inputs).
+import UF.Props.C06Top
+import UF.Props.C16Top
+import UF.Props.C02Top
+import UF.Props.C17Top
